@@ -8,7 +8,7 @@
    about runs that return [Ok]. *)
 From Coq Require Import ZArith List Bool String Permutation Lia.
 Import ListNotations.
-From AiuModel Require Import Base Overlap Overlap_proofs.
+From AiuModel Require Import Base Overlap Overlap_proofs Lanes.
 Local Open Scope Z_scope.
 
 (* (1) both modes: exported ph-X slices of one (pid,tid) are pairwise disjoint or nested
@@ -131,3 +131,10 @@ Proof. vm_compute. reflexivity. Qed.
 Example C04_lane_sorted_example :
   lane_sorted [E true 0 1 0 5 0; E true 0 2 9 1 1; E true 0 1 3 5 2; E false 0 1 1 0 3; E true 0 2 9 4 4].
 Proof. cbn. repeat split; intros; repeat match goal with H : _ \/ _ |- _ => destruct H end; subst; cbn in *; try lia; try discriminate; try contradiction. Qed.
+
+(* ---------- the lane renaming of annotated host slices (a later stage) keeps resolved lanes apart ---------- *)
+Theorem C04_lane_renaming_injective :
+  forall k k' j j' : Z, 0 <= j < 10 -> 0 <= j' < 10 ->
+    light_tid (1000 + 100 * k + j) = light_tid (1000 + 100 * k' + j') -> k = k' /\ j = j'.
+Proof. exact light_tid_injective_on_lanes. Qed.
+Print Assumptions C04_lane_renaming_injective.
